@@ -85,7 +85,19 @@ RULE = ("cases: edit = a valid seed recipe (16 built-in seeds covering every con
         "true branch, counters with step 0, schedules with count 0 / interval 0 / until before start, UniqueId with an empty "
         "alphabet / template, an empty file, references to tables with count 0 / used up uniquely) x 11 ways of using them "
         "(field, hidden field + formula, var + formula, .next, for_each, friend, nested, argument, count, twice) behind a "
-        "template that writes rows, under 5 s of CPU: the run must end with rows or a DataGenError.  non-trivial: the document "
+        "template that writes rows, under 5 s of CPU: the run must end with rows or a DataGenError.  round 5: mode = the "
+        "documents (66 hand-written statement mixes: no statement at all / [] / empty text, only options / macros / plugins / "
+        "version lines / an include_file of macros, one template plain / nicknamed / hidden / with count / for_each / friends / "
+        "nested / just_once, a lone var, rows made only by templates held in variables, only vars, several templates, hidden "
+        "tables, case-twin tables; every unchanged seed; single edits of the tiny and built-in seeds; seeds in the company of "
+        "valid statements; random trees) offered through the other entry modes of the public API: update mode "
+        "(update_input_file = one of 7 small CSV inputs - rows, header only, no id column, zero bytes, BOM + CRLF, ragged - "
+        "with 0-2 passthrough fields, existing / missing / repeated / odd names) and a run continued from the continuation "
+        "file of a first run of the same document (then once more from the continued run's file), each through "
+        "generate_data on open streams, generate_data on paths, and snowfakery.cli in-process; same oracle, plus: what an "
+        "ordinary run rejects before execution must be rejected before any row in update mode, and an update recipe "
+        "with 0 or several object / var statements, a lone var or a count must be rejected before any row.  "
+        "non-trivial: the document "
         "is rejected or crashes (the rejection machinery ran), or a fault / hostile / dag / big case, or a format template with a brace; distinct by case hash")
 TRUSTED = ["harness/c20.py: tree <-> YAML text (yaml.safe_dump / yaml.safe_load); the model receives the tree "
            "PyYAML loads from the text the implementation receives (`__line__` keys dropped: the loader "
@@ -665,6 +677,14 @@ TEXTS = {
  "crlf": "- object: A\r\n  count: 2\r\n",
  "long_scalar": "- object: A\n  fields:\n    x: |\n      line one\n      line two\n",
  "folded_key": "- object: A\n  fields:\n    ? |\n      block key\n    : v\n",
+ # round 5: plugin classes that bring no function library (/repo 97f838d rejects them when the recipe is parsed)
+ "plugin_base_class": "- plugin: snowfakery.plugins.SnowfakeryPlugin\n- object: A\n",
+ "plugin_base_class_used": "- plugin: snowfakery.plugins.SnowfakeryPlugin\n- object: A\n  fields:\n    x: ${{SnowfakeryPlugin.f()}}\n",
+ "plugin_base_class_alone": "- plugin: snowfakery.plugins.SnowfakeryPlugin\n",
+ "plugin_without_functions": "- plugin: harness.c20_plugin.NoFunctions\n- object: A\n  fields:\n    x: 1\n",
+ "plugin_own_custom_functions": "- plugin: harness.c20_plugin.OwnLibrary\n- object: A\n  fields:\n    x: ${{OwnLibrary.one()}}\n",
+ "plugin_parser_macro_base": "- plugin: snowfakery.plugins.ParserMacroPlugin\n- object: A\n",
+ "plugin_after_valid": "- plugin: snowfakery.standard_plugins.Math\n- object: A\n- plugin: snowfakery.plugins.SnowfakeryPlugin\n",
 }
 
 
@@ -1691,6 +1711,175 @@ def empty_cases(rng, tier):
     return out
 
 
+# ----------------------------------------------------------------- round 5: the other entry modes of the public API
+# The same documents offered the other ways the API offers: update mode (generate_data(update_input_file=...) /
+# --update-input-file: the recipe is rewritten around a CSV input by build_update_recipe) and a run continued from the
+# continuation file of an earlier run of the same recipe (generate_continuation_file= / continuation_file=, as text,
+# as paths, through the command line).  The oracle is the property's, unchanged: rows or a DataGenError with a message,
+# never another exception, never a hang, a fault found before execution leaves no row.
+MODE_CSV = {
+    "two_rows": "id,Name,Number\n1,Alpha,5\n2,Beta,6\n",
+    "one_row": "id,Name\n7,Gamma\n",
+    "header_only": "id,Name\n",
+    "no_id_column": "Name,City\nAlpha,Town\n",
+    "zero_bytes": "",
+    "bom_crlf": "\ufeffid,Name\r\n1,Alpha\r\n2,Beta\r\n",
+    "ragged": "id,Name\n1\n2,Beta,extra\n",
+}
+MODE_PASSTHROUGH = [[], [], ["id"], ["id", "Name"], ["Name"], ["Missing"], ["Name", "Name"], ["a b"], [""]]
+MODE_VIAS = ["text", "path", "cli"]
+NO_FUNCTIONS_PLUGIN = "snowfakery.plugins.SnowfakeryPlugin"
+
+
+def _mode_docs():
+    """label -> document (Python structure, or text): every mix of top-level statements - none at all, declarations
+    only, one / several templates, hidden tables, nicknames, rows made only through variables"""
+    O = "snowfakery.standard_plugins.SnowfakeryVersion.snowfakery_version"
+    opt = {"option": "mode_o", "default": 2}
+    mac = {"macro": "mode_m", "fields": {"city": "Burnaby"}}
+    plug = {"plugin": "snowfakery.standard_plugins.Math"}
+    ver = {"snowfakery_version": 3}
+    A = {"object": "A", "fields": {"name": "n"}}
+    B = {"object": "B", "fields": {"x": 1}}
+    H = {"object": "__H", "fields": {"x": 1}}
+    Hn = {"object": "__H", "nickname": "hn", "fields": {"x": 1}}
+    An = {"object": "A", "nickname": "an", "fields": {"name": "n"}}
+    vtmpl = {"var": "acct", "value": [{"object": "Account", "fields": {"Name": "Acme"}}]}
+    vone = {"var": "one", "value": {"object": "Single", "nickname": "sn", "fields": {"a": 1}}}
+    d = {
+        "empty_list": [],
+        "text:empty": "",
+        "text:null": "null\n",
+        "text:empty_map": "{}\n",
+        "text:comment_only": "# nothing\n",
+        "only_option": [opt],
+        "only_required_option": [{"option": "mode_required"}],
+        "only_macro": [mac],
+        "only_version": [ver],
+        "only_version_2": [{"snowfakery_version": 2}],
+        "only_version_option": [{"option": O, "default": 3}],
+        "only_plugin": [plug],
+        "only_plugin_without_functions": [{"plugin": NO_FUNCTIONS_PLUGIN}],
+        "only_include_file_of_macros": [{"include_file": "tests/child.yml"}],
+        "only_declarations": [ver, opt, mac, plug],
+        "two_macros": [mac, {"macro": "mode_m2", "include": "mode_m", "friends": [dict(B)]}],
+        "one_object": [A],
+        "one_object_bare": [{"object": "A"}],
+        "one_object_input": [{"object": "A", "fields": {"Name": "${{input.Name}} x", "n": "${{input.id}}"}}],
+        "one_object_input_missing": [{"object": "A", "fields": {"Name": "${{input.Nope}}"}}],
+        "one_object_nickname": [An],
+        "one_object_hidden": [H],
+        "one_object_hidden_nickname": [Hn],
+        "one_object_hidden_fields": [{"object": "A", "fields": {"__h": 1, "v": "${{__h}}"}}],
+        "one_object_count": [dict(A, count=2)],
+        "one_object_count_zero": [dict(A, count=0)],
+        "one_object_count_formula": [dict(A, count="${{1 + 1}}")],
+        "one_object_for_each": [{"plugin": "harness.c20_plugin.Boom"},
+                                dict(A, for_each={"var": "r", "value": {"Boom.items": {"n": 2}}})],
+        "one_object_just_once": [dict(A, just_once=True)],
+        "one_object_just_once_nickname": [dict(An, just_once=True)],
+        "one_object_update_key": [dict(A, update_key="name")],
+        "one_object_friends": [dict(A, friends=[dict(B), {"object": "C", "nickname": "cn", "fields": {"r": {"reference": "A"}}}])],
+        "one_object_nested": [{"object": "A", "fields": {"c": {"object": "C", "fields": {"z": 1}}, "l": [dict(B)]}}],
+        "one_object_macro": [mac, dict(B, include="mode_m")],
+        "one_object_declarations": [ver, opt, plug, dict(A, fields={"r": "${{Math.sqrt(4)}}", "o": "${{mode_o}}"})],
+        "one_object_self_reference": [{"object": "A", "fields": {"r": {"random_reference": "A"}}}],
+        "one_object_reference_unknown": [{"object": "A", "fields": {"r": {"reference": "Nowhere"}}}],
+        "one_object_random_reference_unknown": [{"object": "A", "fields": {"r": {"random_reference": "Nowhere"}}}],
+        "one_object_plugin_without_functions": [{"plugin": NO_FUNCTIONS_PLUGIN}, A],
+        "one_object_id_field": [{"object": "A", "fields": {"id": 5}}],
+        "one_var": [{"var": "v", "value": 1}],
+        "one_var_formula": [{"var": "v", "value": "${{1 + 1}}"}],
+        "one_var_template": [vtmpl],
+        "one_var_template_unwrapped": [vone],
+        "only_vars": [{"var": "a", "value": 1}, {"var": "b", "value": "${{a + 1}}"}],
+        "only_vars_and_option": [{"option": "greeting", "default": "hello"}, {"var": "text", "value": "${{greeting}} world"}],
+        "rows_through_variables": [vtmpl, {"var": "acct_name", "value": "${{acct.Name}}"}],
+        "rows_through_variables_nickname": [vone, {"var": "w", "value": "${{one.a}}"}],
+        "rows_through_variables_nested": [{"var": "outer", "value": {"object": "Outer", "fields": {
+            "in": {"object": "Inner", "nickname": "inn", "fields": {"q": 1}}}, "friends": [dict(B)]}}],
+        "rows_through_variables_hidden": [{"var": "hv", "value": [{"object": "__Hid", "nickname": "hid", "fields": {"s": 1}}]}],
+        "var_then_object": [{"var": "v", "value": 1}, dict(A, fields={"n": "${{v}}"})],
+        "object_then_var": [A, {"var": "v", "value": 1}],
+        "two_objects": [A, B],
+        "two_objects_same_table": [A, dict(A)],
+        "two_objects_nicknames": [An, {"object": "B", "nickname": "bn", "fields": {"r": {"reference": "an"}}}],
+        "two_objects_case_twins": [{"object": "A", "count": 2}, {"object": "a", "count": 2},
+                                   {"object": "R", "fields": {"x": {"random_reference": "A"}, "y": {"random_reference": "a"}}}],
+        "object_and_hidden": [A, H],
+        "hidden_and_object": [Hn, dict(A, fields={"v": "${{hn.x}}"})],
+        "two_hidden": [H, {"object": "__G", "nickname": "g"}],
+        "three_objects_random_reference": [dict(A, count=2), B, {"object": "R", "fields": {
+            "r": {"random_reference": "A"}, "u": {"random_reference": {"to": "A", "unique": True}}}}],
+        "just_once_and_object": [dict(An, just_once=True), {"object": "B", "fields": {"r": {"reference": "an"}}}],
+        "just_once_hidden_and_object": [dict(Hn, just_once=True), {"object": "B", "fields": {"r": "${{hn.x}}"}}],
+        "nickname_in_friend_only": [dict(A, friends=[{"object": "F", "nickname": "fn"}])],
+        "object_fault_static": [{"object": "A", "fieldz": {}}],
+        "object_fault_runtime": [A, {"object": "B", "fields": {"x": "${{ 1 / 0 }}"}}],
+        "declarations_fault_static": [opt, {"macro": 5}],
+    }
+    return d
+
+
+def _doc_text(doc):
+    return doc if isinstance(doc, str) else yaml.safe_dump(doc, sort_keys=False, allow_unicode=True, width=1000)
+
+
+def mode_cases(rng, tier):
+    sd = seeds()
+    out = []
+
+    def add(inner, mode, via=None, csv=None, pas=None, label=None):
+        c = {"kind": "mode", "mode": mode, "via": via or rng.choice(MODE_VIAS), "inner": inner}
+        if mode == "update":
+            c["csv"] = csv or rng.choice(sorted(MODE_CSV))
+            c["pass"] = list(rng.choice(MODE_PASSTHROUGH) if pas is None else pas)
+        c["label"] = label or f"mode:{mode}:{c['via']}"
+        out.append(c)
+    docs = _mode_docs()
+    for name in sorted(docs):
+        inner = {"kind": "text", "text": _doc_text(docs[name]), "label": "modedoc:" + name}
+        plain = True
+        for via in MODE_VIAS:
+            # update mode: without and with passthrough fields; every way in
+            c0 = len(out)
+            add(inner, "update", via, "two_rows", [], f"mode:update:{name}")
+            add(inner, "update", via, "two_rows" if via != "cli" else "one_row", ["id", "Name"], f"mode:update:{name}")
+            add(inner, "update", via, None, None, f"mode:update:{name}")
+            add(inner, "continue", via, label=f"mode:continue:{name}")
+            for c in out[c0:]:
+                c["doc"] = name
+                c["plain"] = plain
+    minis = sorted(n for n in sd if n.startswith("m_"))
+    others = sorted(n for n in sd if not n.startswith("m_"))
+    # the unchanged seeds: both modes
+    for n in minis + others:
+        inner = {"kind": "edit", "seed": n, "edit": None}
+        add(inner, "continue")
+        add(inner, "update")
+    # single edits of the tiny seeds
+    pool = [(n, d) for n in minis for d in edit_descriptors(sd[n]["tree"])]
+    take = pool if tier != "quick" else rng.sample(pool, min(len(pool), 420))
+    for n, d in take:
+        add({"kind": "edit", "seed": n, "edit": d}, rng.choice(["update", "update", "continue"]))
+    # single edits of the other seeds (deleting / replacing a statement changes the statement mix)
+    pool = [(n, d) for n in others if n.startswith("b_") for d in edit_descriptors(sd[n]["tree"])]
+    for n, d in rng.sample(pool, min(len(pool), 150 if tier == "quick" else 6000)):
+        add({"kind": "edit", "seed": n, "edit": d}, rng.choice(["update", "continue", "continue"]))
+    # the documents in company (valid statements of every kind around a seed / an edited seed)
+    ctx = [c for c in ctx_cases(rng, "quick") if c["prefix"] != "self"]
+    valid = [c for c in ctx if c.get("edit") is None]
+    for c in (valid if tier != "quick" else rng.sample(valid, min(len(valid), 90))):
+        add({k: v for k, v in c.items() if k != "model"}, rng.choice(["continue", "continue", "update"]))
+    edited = [c for c in ctx if c.get("edit") is not None]
+    for c in rng.sample(edited, min(len(edited), 120 if tier == "quick" else 3000)):
+        add({k: v for k, v in c.items() if k != "model"}, rng.choice(["continue", "update"]))
+    # random documents
+    for _ in range(60 if tier == "quick" else 3000):
+        add({"kind": "doc", "tree": arb_tree(rng), "base": None, "label": "arb"}, rng.choice(["update", "continue"]))
+    return out
+
+
 # =============================================================================== generation
 def generate(rng, tier):
     cases = []
@@ -1779,12 +1968,17 @@ def generate(rng, tier):
     rng4 = random.Random("r4:" + ",".join(str(x) for x in rng.getstate()[1][:8]))
     cases.extend(empty_cases(rng4, tier))
     cases.extend(ctx_cases(rng4, tier))
+    # round 5: the documents through the other entry modes (update mode, a run continued from a continuation file)
+    rng5 = random.Random("r5:" + ",".join(str(x) for x in rng.getstate()[1][:8]))
+    cases.extend(mode_cases(rng5, tier))
     return cases
 
 
 def materialise(case):
     """-> (text, base) for the implementation"""
     k = case["kind"]
+    if k == "mode":
+        return materialise(case["inner"])
     if k == "text":
         return case["text"], case.get("base")
     if k == "doc":
@@ -1859,6 +2053,9 @@ def _classify_plugin(name, search):
                 if issubclass(cls, BaseProvider):
                     return "faker"
                 a, b = issubclass(cls, P.SnowfakeryPlugin), issubclass(cls, P.ParserMacroPlugin)
+                if a and not hasattr(cls, "Functions") and \
+                        getattr(cls, "custom_functions", None) is getattr(P.SnowfakeryPlugin, "custom_functions", None):
+                    return "notplugin"            # no function library to offer: a type error of the declaration
                 if b:
                     return "parser"
                 if a:
@@ -1973,6 +2170,222 @@ def run_impl(case):
         signal.signal(signal.SIGPROF, old)
 
 
+# ----------------------------------------------------------------- round 5: running a document through another entry mode
+class _CountingOut(io.StringIO):
+    """output file of generate_data: the txt format writes one piece of text per row"""
+
+    def __init__(self):
+        super().__init__()
+        self.rows = 0
+
+    def write(self, s):
+        if s and s != "\n":
+            self.rows += 1
+            if self.rows > ROW_LIMIT:
+                raise _Enough()
+        return len(s)
+
+
+def _one_run(text, base, via, tmp, tag, **kw):
+    """one call of the public entry point (generate_data, or the command line in this process) -> observation.
+    kw: update_input_file / update_passthrough_fields / continuation_file / generate_continuation_file, as text"""
+    from snowfakery.data_gen_exceptions import DataGenError
+    from snowfakery import data_generator_runtime as rt
+    import contextlib
+    import time
+    os.chdir(REPO)
+    random.seed(0)
+    sys.unraisablehook = lambda *a, **k: None
+    state = {"started": False}
+    interp = getattr(rt, "Interpreter", None)
+    orig = interp.__dict__.get("execute") if interp is not None else None
+    if orig is not None:
+        def execute(self, *a, **k):
+            state["started"] = True
+            return orig(self, *a, **k)
+        interp.execute = execute
+    tmp = Path(tmp)
+    obs = {}
+    out = _CountingOut()
+    outpath = tmp / (tag + ".out.txt")
+    new_state = None
+    new_state_path = tmp / (tag + ".state.yml")
+    args = {}
+    cli = []
+    try:
+        # the entry points (if the package no longer offers them under these names, there is nothing to run)
+        if via == "cli":
+            import click
+            from snowfakery.cli import generate_cli
+        from snowfakery import generate_data
+        # the recipe
+        if via == "text" or (base and not (REPO / base).is_file()):
+            via = "text"
+            if base:
+                recipe = _NamedIO(text)
+                recipe.name = str(REPO / base)
+            else:
+                recipe = io.StringIO(text)
+        else:
+            rp = tmp / "recipe.yml"
+            if base:
+                orig_text = (REPO / base).read_text()
+                if yaml.safe_load(orig_text) == yaml.safe_load(text):
+                    rp = REPO / base
+                else:
+                    # an edited repository recipe stays next to the files it includes
+                    via = "text"
+                    recipe = _NamedIO(text)
+                    recipe.name = str(REPO / base)
+            if via != "text":
+                if rp.parent == tmp:
+                    rp.write_text(text, encoding="utf-8")
+                recipe = str(rp) if via == "cli" else rp
+        if via == "cli":
+            cli = [recipe, "--output-format", "txt", "--output-file", str(outpath)]
+        if kw.get("update_input_file") is not None:
+            if via == "text":
+                args["update_input_file"] = io.StringIO(kw["update_input_file"])
+            else:
+                cp = tmp / "input.csv"
+                with open(cp, "w", encoding="utf-8", newline="") as f:
+                    f.write(kw["update_input_file"])
+                args["update_input_file"] = cp
+                cli += ["--update-input-file", str(cp)]
+            if kw.get("update_passthrough_fields"):
+                args["update_passthrough_fields"] = list(kw["update_passthrough_fields"])
+                cli += ["--update-passthrough-fields", ",".join(kw["update_passthrough_fields"])]
+        if kw.get("continuation_file") is not None:
+            if via == "text":
+                args["continuation_file"] = io.StringIO(kw["continuation_file"])
+            else:
+                sp = tmp / (tag + ".from.yml")
+                sp.write_text(kw["continuation_file"], encoding="utf-8")
+                args["continuation_file"] = sp
+                cli += ["--continuation-file", str(sp)]
+        if kw.get("generate_continuation_file"):
+            if via == "text":
+                new_state = io.StringIO()
+                args["generate_continuation_file"] = new_state
+            else:
+                args["generate_continuation_file"] = new_state_path
+                cli += ["--generate-continuation-file", str(new_state_path)]
+    except BaseException as e:
+        if type(e).__name__ == "_CaseTimeout":
+            raise
+        if orig is not None:
+            interp.execute = orig
+        return {"skip": f"could not prepare the run: {type(e).__name__}: {e}"}
+    sink = io.StringIO()
+    cpu0 = time.process_time()
+    try:
+        with contextlib.redirect_stdout(sink), contextlib.redirect_stderr(sink):
+            if via == "cli":
+                try:
+                    generate_cli.main(cli, standalone_mode=False)
+                except click.ClickException as ce:
+                    if isinstance(ce.__cause__, DataGenError):
+                        raise ce.__cause__
+                    obs["skip"] = f"the command line refused the arguments: {ce}"
+            else:
+                generate_data(recipe, output_file=out, output_format="txt", **args)
+        obs["outcome"] = "accept"
+    except _Enough:
+        obs["outcome"] = "accept"
+        obs["truncated"] = True
+    except BaseException as e:
+        if type(e).__name__ == "_CaseTimeout":
+            raise
+        if isinstance(e, DataGenError):
+            obs["outcome"] = "DGE"
+            obs["dge"] = type(e).__name__
+            try:
+                obs["msg_ok"] = bool(str(e).strip()) and bool(str(e.message).strip())
+                obs["msg_nonempty"] = bool(str(e.message))
+            except Exception:
+                obs["msg_ok"] = False
+                obs["msg_nonempty"] = False
+            obs["has_line"] = bool(e.line_num)
+            obs["has_file"] = bool(e.filename)
+        else:
+            obs["outcome"] = type(e).__name__
+            obs["where"] = _site(e)
+            obs["msg"] = str(e)[:160]
+    finally:
+        obs["cpu"] = round(time.process_time() - cpu0, 3)
+        if orig is not None:
+            interp.execute = orig
+    if via == "cli":
+        try:
+            obs["rows"] = len(outpath.read_text(encoding="utf-8", errors="replace").splitlines()) if outpath.exists() else 0
+        except OSError:
+            obs["rows"] = 0
+    else:
+        obs["rows"] = out.rows
+    obs["phase"] = None if orig is None else ("run" if state["started"] else "static")
+    obs["via"] = via
+    if obs.get("outcome") == "accept" and kw.get("generate_continuation_file"):
+        try:
+            obs["state"] = new_state.getvalue() if new_state is not None else new_state_path.read_text(encoding="utf-8")
+        except Exception:
+            obs["state"] = None
+    return obs
+
+
+_PLAIN = {}          # text -> verdict of the document in the ordinary mode (per worker process)
+
+
+def _run_mode(case, text, base):
+    import tempfile
+    import shutil
+    tmp = tempfile.mkdtemp(prefix="sfv.c20m.", dir="/var/tmp")
+    try:
+        for d in ("examples", "tests"):          # (what the tiny seeds include is named relative to the repository)
+            try:
+                os.symlink(REPO / d, Path(tmp) / d)
+            except OSError:
+                pass
+        via = case.get("via", "text")
+        keep = ("outcome", "phase", "rows", "where", "dge", "msg", "msg_ok", "truncated", "via", "skip")
+        if case["mode"] == "update":
+            obs = _run_one_update(case, text, base, via, tmp)
+            if text not in _PLAIN:
+                a = _run_text({"kind": "doc"}, text, base, want_env=False)
+                if len(_PLAIN) > 5000:
+                    _PLAIN.clear()
+                _PLAIN[text] = {k: a.get(k) for k in ("outcome", "phase", "rows", "where", "dge")}
+            obs["alone"] = dict(_PLAIN[text])
+            obs["link"] = 1
+            return obs
+        first = _one_run(text, base, via, tmp, "run1", generate_continuation_file=True)
+        state = first.pop("state", None)
+        if first.get("skip") or first.get("outcome") != "accept" or first.get("truncated") or state is None:
+            first["link"] = 1
+            if first.get("outcome") == "accept" and state is None and not first.get("truncated"):
+                first["skip"] = "the accepted first run left no continuation file to read"
+            return first
+        obs = _one_run(text, base, via, tmp, "run2", continuation_file=state, generate_continuation_file=True)
+        state2 = obs.pop("state", None)
+        obs["link"] = 2
+        obs["first"] = {k: first.get(k) for k in keep if k in first}
+        if obs.get("outcome") == "accept" and not obs.get("truncated") and state2 is not None and not obs.get("skip"):
+            # and once more, from the continued run's own file
+            third = _one_run(text, base, via, tmp, "run3", continuation_file=state2)
+            third.pop("state", None)
+            if third.get("outcome") != "accept" and not third.get("skip"):
+                third["link"] = 3
+                third["first"] = obs["first"]
+                return third
+        return obs
+    finally:
+        shutil.rmtree(tmp, ignore_errors=True)
+
+
+def _run_one_update(case, text, base, via, tmp):
+    return _one_run(text, base, via, tmp, "upd", update_input_file=MODE_CSV.get(case.get("csv"), MODE_CSV["two_rows"]),
+                    update_passthrough_fields=case.get("pass") or [])
+
+
 _ALONE = {}          # (seed, edit) -> verdict of the edited seed on its own (per worker process)
 
 
@@ -1982,6 +2395,8 @@ def _run_impl(case):
     text, base = materialise(case)
     if text is None:
         return {"skip": "seed unavailable"}
+    if case["kind"] == "mode":
+        return _run_mode(case, text, base)
     tmpdir = None
     if case["kind"] in ("files", "empty"):
         import tempfile
@@ -2460,7 +2875,7 @@ def coq_case(case, obs):
         return f"CFix {cs(case['template'])} {C.clist(cs(a) for a in case['args'])} {e} {_cexn(r)}"
     if "outcome" not in obs:
         return None
-    if case["kind"] == "big" or case.get("model") is False:
+    if case["kind"] == "big" or case["kind"] == "mode" or case.get("model") is False:
         return None                       # the recursion limit / the size of numbers is not what the model is about
     if case["kind"] == "hostile":
         steps, leaf, e = fault_path_v(case)
@@ -2526,6 +2941,61 @@ def _nondge_at_leaf(case):
     return case["exc"] != "DGE"
 
 
+def _mode_what(case, obs):
+    via = {"text": "generate_data on open streams", "path": "generate_data on paths", "cli": "the command line"}.get(obs.get("via"), "?")
+    if case["mode"] == "update":
+        return f"in update mode ({via}; input `{case.get('csv')}`, passthrough fields {case.get('pass')})"
+    link = {1: "in a run that writes a continuation file", 2: "in a run continued from the continuation file of its first run",
+            3: "in a third run, continued from the continued run's continuation file"}.get(obs.get("link"), "?")
+    return f"{link} ({via})"
+
+
+def _update_must_reject(text):
+    """an update recipe has exactly one statement, an object template without count (for documents without include_file)"""
+    try:
+        py = yaml.safe_load(text)
+    except Exception:
+        return None
+    if not isinstance(py, list) or not all(isinstance(o, dict) for o in py) or any("include_file" in o for o in py):
+        return None
+    st = [o for o in py if "object" in o or "var" in o]
+    if len(st) != 1:
+        return f"{len(st)} object / var statements"
+    if "var" in st[0]:
+        return "a var statement instead of an object template"
+    if st[0].get("count"):
+        return "a template with a count"
+    return None
+
+
+def _mode_oracle(case, obs):
+    out = obs["outcome"]
+    what = _mode_what(case, obs)
+    if out not in ("accept", "DGE"):
+        return (f"crash {out}@{obs.get('where')}: the document {what} is answered with {out} ({obs.get('msg')}) "
+                f"in the {obs.get('phase')} phase after {obs.get('rows')} rows")
+    if out == "DGE" and not obs.get("msg_ok"):
+        return f"message: rejected {what} with a DataGenError that carries no message"
+    if obs.get("phase") == "static" and obs.get("rows", 0) > 0:
+        return f"rows: {obs['rows']} rows were written {what} although the error was raised before execution started"
+    if case["mode"] == "update":
+        alone = obs.get("alone") or {}
+        if alone.get("outcome") == "DGE" and alone.get("phase") == "static":
+            if out == "accept":
+                return (f"late: a document that is rejected before execution in an ordinary run ({alone.get('dge')}) is accepted "
+                        f"{what} ({obs.get('rows')} rows written)")
+            if obs.get("phase") == "run" and obs.get("rows", 0) > 0:
+                return (f"late: a fault that is reported before execution in an ordinary run ({alone.get('dge')}) is reported "
+                        f"only during execution, after {obs.get('rows')} rows, {what}")
+        if case.get("plain") and alone.get("outcome") == "accept":
+            text, _ = materialise(case)
+            why = _update_must_reject(text)
+            if why and (out == "accept" or obs.get("rows", 0) > 0):
+                return (f"late: an update recipe with {why} is " + ("accepted" if out == "accept" else "rejected only after rows were written")
+                        + f" {what} ({obs.get('rows')} rows)")
+    return None
+
+
 def oracle(case, obs):
     if obs.get("skip"):
         return None
@@ -2542,6 +3012,8 @@ def oracle(case, obs):
             if not obs.get("has_line") or not obs.get("has_file"):
                 return "location: fix_exception returned a DataGenError without the file / line of its parent object"
         return None
+    if case["kind"] == "mode":
+        return _mode_oracle(case, obs)
     out = obs["outcome"]
     if case["kind"] in ("fault", "hostile"):
         if out not in ("accept", "DGE"):
@@ -2589,7 +3061,7 @@ def nontrivial(case, obs):
         return isinstance(obs, dict) and not obs.get("skip") and ("{" in case["template"] or "}" in case["template"])
     if not isinstance(obs, dict) or "outcome" not in obs:
         return False
-    return case["kind"] in ("fault", "hostile", "dag", "big", "empty") or obs["outcome"] != "accept"
+    return case["kind"] in ("fault", "hostile", "dag", "big", "empty", "mode") or obs["outcome"] != "accept"
 
 
 def stats(cases, obss):
@@ -2608,6 +3080,9 @@ def stats(cases, obss):
     r4 = {"empty_sources": Counter(), "empty_uses": Counter(), "empty_outcomes": Counter(), "context_statements": Counter(),
           "context_positions": Counter(), "context_seeds": Counter(), "context_alone_vs_in_company": Counter()}
 
+    r5 = {"modes": Counter(), "mode_documents": Counter(), "mode_outcomes": Counter(), "update_inputs": Counter(),
+          "update_passthrough_fields": Counter(), "update_statement_mix": Counter(), "continued_without_top_level_template": Counter()}
+
     def _verdict(o):
         if not isinstance(o, dict):
             return "n/a"
@@ -2625,6 +3100,30 @@ def stats(cases, obss):
             r4["empty_sources"][":".join(c["source"].split(":")[:2])] += 1
             r4["empty_uses"][c["use"]] += 1
             r4["empty_outcomes"][c["source"].split(":")[0] + " " + _verdict(o)] += 1
+        elif k == "mode":
+            via = o.get("via", c.get("via")) if isinstance(o, dict) else c.get("via")
+            r5["modes"][c["mode"] + "/" + str(via)] += 1
+            inner = c["inner"]
+            r5["mode_documents"]["statement mixes (hand-written)" if c.get("doc") else
+                                 inner["kind"] + (" unchanged seed" if inner["kind"] in ("edit", "ctx") and inner.get("edit") is None else "")] += 1
+            link = o.get("link") if isinstance(o, dict) else None
+            r5["mode_outcomes"][c["mode"] + (f" run {link}" if c["mode"] == "continue" else "") + ": " + _verdict(o)] += 1
+            if c["mode"] == "update":
+                r5["update_inputs"][c.get("csv")] += 1
+                r5["update_passthrough_fields"][len(c.get("pass") or [])] += 1
+            try:
+                py = yaml.safe_load(materialise(c)[0])
+            except Exception:
+                py = None
+            if isinstance(py, list) and all(isinstance(x, dict) for x in py):
+                nobj = sum(1 for x in py if "object" in x)
+                nvar = sum(1 for x in py if "var" in x)
+                hidden = any(str(x.get("object", "")).startswith("__") for x in py)
+                mix = f"objects={min(nobj, 3)}{'+' if nobj > 3 else ''} vars={min(nvar, 2)}{'+' if nvar > 2 else ''}" + (" hidden" if hidden else "")
+                if c["mode"] == "update":
+                    r5["update_statement_mix"][mix] += 1
+                elif nobj == 0 and link in (2, 3):
+                    r5["continued_without_top_level_template"][f"vars={min(nvar, 2)}{'+' if nvar > 2 else ''}: " + _verdict(o)] += 1
         elif k == "ctx":
             r4["context_statements"][c["prefix"]] += 1
             r4["context_positions"][c.get("pos")] += 1
@@ -2683,7 +3182,7 @@ def stats(cases, obss):
     round3 = {k: dict(v) for k, v in r3.items()}
     round3["dag_depths"] = {str(k): v for k, v in sorted(r3["dag_depths"].items())}
     round3.update(max_alias_check_invocations=max_calls, max_cpu_seconds_dag_big=max_cpu, hostile_alphabet=len(HOSTILE))
-    return {"round4": {k: dict(v) for k, v in r4.items()}, "round3": round3, "seeds_enumerated_exhaustively": len(exhaustive), "kinds": dict(kinds), "outcome/phase": dict(outc), "crash_sites": dict(crash), "reject_classes": dict(dge),
+    return {"round5": {k: {str(a): b for a, b in v.items()} for k, v in r5.items()}, "round4": {k: dict(v) for k, v in r4.items()}, "round3": round3, "seeds_enumerated_exhaustively": len(exhaustive), "kinds": dict(kinds), "outcome/phase": dict(outc), "crash_sites": dict(crash), "reject_classes": dict(dge),
             "reject_location": dict(lines), "runtime_reject_rows_before": dict(rows_before_dge),
             "edit_ops": dict(ops), "seeds": len(sd), "seed_nodes": sum(s["nodes"] for s in sd.values())}
 
@@ -2754,19 +3253,6 @@ FINDINGS = {
           "one another) is answered with RecursionError (from PyYAML's composer, check_no_recursive_aliases, "
           "parse_field_value / include_macro, or at run time ObjectTemplate.generate_rows) instead of a recipe error",
   "case": {"kind": "big", "shape": "nest_list_default", "n": 600}},
- "C20-S1-history-table-name": {
-  "sigs": [("OperationalError", "history-table-name"), ("ProgrammingError", "history-table-name")],
-  "what": "the target of a random_reference becomes, verbatim, the name of a table of the row-history store "
-          "(row_history.py: f'CREATE TABLE \"{tablename}\" ...', INSERT, SELECT): a name with a double quote "
-          "(random_reference: 'a\"b' -> sqlite3.OperationalError: near \"b\": syntax error - text of the recipe is executed "
-          "as SQL), with a NUL character (ProgrammingError: the query contains a null character) or starting with "
-          "`sqlite_` in any case (a table called sqlite_stats: OperationalError: object name reserved for internal use) "
-          "makes generate raise the sqlite3 exception before the first row, whether or not such a table exists",
-  "case": {"kind": "doc", "tree": ["l", [["m", [[["s", "object"], ["s", "sqlite_stats"]], [["s", "count"], ["i", 2]]]],
-                                         ["m", [[["s", "object"], ["s", "B"]],
-                                                [["s", "fields"], ["m", [[["s", "x"], ["m", [[["s", "random_reference"],
-                                                                                             ["s", "sqlite_stats"]]]]]]]]]]]],
-           "base": None}},
  "C20-F1-include-file-name-too-long": {
   "sigs": [("OSError", "include-file-name-too-long")],
   "what": "include_file with a name the operating system refuses (a path component longer than 255 bytes, e.g. 300 "
@@ -2853,40 +3339,6 @@ def _followed_size(py):
         if all(k in spec and isinstance(v, spec[k]) for k, v in obj.items()):
             total += size[idx]
     return total
-
-
-def _history_name_class(case):
-    """'history-table-name' when some random_reference of the document names a target that is not a plain SQL
-    identifier body: contains a double quote or NUL, or starts with sqlite_"""
-    if case["kind"] in ("fmt", "fix"):
-        return None
-    text, _ = materialise(case)
-    try:
-        py = yaml.safe_load(text)
-    except Exception:
-        return None
-
-    def bad(name):
-        return isinstance(name, str) and ('"' in name or "\x00" in name or name.lower().startswith("sqlite_"))
-    seen, todo = set(), [py]
-    while todo:
-        o = todo.pop()
-        if not isinstance(o, (list, dict)) or id(o) in seen:
-            continue
-        seen.add(id(o))
-        if isinstance(o, dict):
-            if "random_reference" in o:
-                tgt = o["random_reference"]
-                if isinstance(tgt, dict):
-                    tgt = tgt.get("to")
-                elif isinstance(tgt, list) and tgt:
-                    tgt = tgt[0]
-                if bad(tgt):
-                    return "history-table-name"
-            todo.extend(o.values())
-        else:
-            todo.extend(o)
-    return None
 
 
 def _long_include_class(case):
@@ -3073,16 +3525,10 @@ def match_finding(case, obs, msg, findings):
     if not isinstance(obs, dict):
         return None
     open_ids = {f["id"] for f in findings}
-    sqlite_crash = obs.get("outcome") in ("OperationalError", "ProgrammingError") and \
-        str(obs.get("where", "")).startswith("row_history.py:")
     if msg == "model-disagreement":
-        # (the model has no row-history store: where the implementation fails in it, the static verdicts differ)
-        if sqlite_crash and "C20-S1-history-table-name" in open_ids and _history_name_class(case):
-            return "C20-S1-history-table-name"
         return None
-    if sqlite_crash and msg.startswith("crash "):
-        sig = (obs["outcome"], _history_name_class(case))
-    elif obs.get("outcome") == "OSError" and obs.get("where") == "parse_recipe_yaml.py:parse_included_file" \
+    # (the former finding C20-S1-history-table-name is repaired in /repo 5f8efc8: its witnesses are ordinary cases)
+    if obs.get("outcome") == "OSError" and obs.get("where") == "parse_recipe_yaml.py:parse_included_file" \
             and msg.startswith("crash "):
         sig = ("OSError", _long_include_class(case))
     elif obs.get("hang"):
@@ -3118,9 +3564,6 @@ FINDING_SIGNATURES = {
  "C20-F1-include-file-name-too-long": "OSError whose innermost snowfakery frame is parse_recipe_yaml.py:parse_included_file AND an "
                                       "include_file of the document has a path component longer than 255 bytes (or is longer "
                                       "than 4000 bytes)",
- "C20-S1-history-table-name": "sqlite3 OperationalError / ProgrammingError whose innermost snowfakery frame is in row_history.py AND "
-                              "the document has a random_reference whose target contains a double quote or NUL or starts "
-                              "with sqlite_ (any case)",
  "C20-H2-alias-expansion": "the run does not end within the time limit (or exceeds the CPU limit) AND the tree the parser "
                            "walks or prints when it follows the references of the document (statements that pass "
                            "parse_element, included macros, top-level elements quoted by an error message, the default of "
